@@ -1,4 +1,5 @@
 import AkVerif.Lemmas.PPrint
+import AkVerif.Lemmas.PPrintInt
 /-!
 Helper lemmas for C11, part 2: what the lexer does on the pieces the printer emits
 (white space, punctuation, quoted strings, number and keyword tokens).
@@ -218,7 +219,7 @@ theorem numOk_shape {t : List Char} (h : numOk t = true) :
 
 theorem lex_inNum (acc t rest : List Char) (ht : t.all numChar = true)
     (hk : numOk (acc.reverse ++ t) = true) (hr : Delim rest) :
-    lexGo c (.inNum acc) (t ++ rest) = addT [.num (acc.reverse ++ t)] (lexGo c .idle rest) := by
+    lexGo c (.inNum acc) (t ++ rest) = addT [numTok (acc.reverse ++ t)] (lexGo c .idle rest) := by
   induction t generalizing acc with
   | nil =>
     simp only [List.append_nil] at hk
@@ -226,7 +227,7 @@ theorem lex_inNum (acc t rest : List Char) (ht : t.all numChar = true)
     | nil => simp [lexGo, finish, hk]
     | cons d r =>
       have hd : isDelim d = true := hr d rfl
-      rw [List.nil_append, lex_close c _ (.num acc.reverse) d r hd]
+      rw [List.nil_append, lex_close c _ (numTok acc.reverse) d r hd]
       · simp
       · simp [step, isDelim_not_numChar hd, hk]
   | cons x r ih =>
@@ -236,13 +237,23 @@ theorem lex_inNum (acc t rest : List Char) (ht : t.all numChar = true)
     rw [ih (x :: acc) ht.2 (by simpa using hk)]
     simp
 
-theorem lex_num (t rest : List Char) (ht : numOk t = true) (hr : Delim rest) :
-    lexGo c .idle (t ++ rest) = addT [.num t] (lexGo c .idle rest) := by
+theorem lex_numTok (t rest : List Char) (ht : numOk t = true) (hr : Delim rest) :
+    lexGo c .idle (t ++ rest) = addT [numTok t] (lexGo c .idle rest) := by
   obtain ⟨x, r, rfl, hx, hrr⟩ := numOk_shape ht
   rw [List.cons_append, lexGo_cons]
   simp only [step, idleStep_numStart hx]
   rw [lex_inNum c [x] r rest hrr (by simpa using ht) hr]
   simp
+
+/-- a float text gives a `num` token -/
+theorem lex_num (t rest : List Char) (ht : numOk t = true) (hf : intOf? t = none) (hr : Delim rest) :
+    lexGo c .idle (t ++ rest) = addT [.num t] (lexGo c .idle rest) := by
+  rw [lex_numTok c t rest ht hr, numTok_float hf]
+
+/-- the text of an int gives the `int` token of that int -/
+theorem lex_int (n : Int) (rest : List Char) (hr : Delim rest) :
+    lexGo c .idle (showInt n ++ rest) = addT [.int n] (lexGo c .idle rest) := by
+  rw [lex_numTok c _ rest (numOk_showInt n) hr, numTok_showInt]
 
 theorem lex_inWord (acc w rest : List Char) (k : Kw) (hw : w.all isLetter = true)
     (hk : kwOf c (acc.reverse ++ w) = some k) (hr : Delim rest) :
